@@ -1,7 +1,7 @@
 (** C10 obligation: a value of the wrong Python type is rejected when written ([right_type] is the table: bool for Bool, str for String /
     NagString / OneOf, int (bool included: a Python bool is an int) for Integer, decimal.Decimal for Decimal, None anywhere) *)
-From OfxV Require Import Base.Prelude Base.Digits Gen.ScalarsGen Model.PyDecimal Model.Scalars Model.ScalarsLex Proofs.ScalarsText Proofs.PyDecimalProofs Proofs.ScalarsProofs Proofs.ScalarsLexProofs.
+From OfxV Require Import Base.Prelude Base.Digits Gen.ScalarsGen Model.PyDecimal Model.Scalars Model.ScalarsLex Proofs.ScalarsText Proofs.PyDecimalProofs Proofs.ScalarsProofs Proofs.ScalarsLexProofs Proofs.ScalarsThms.
 Local Open Scope N_scope.
 Theorem T_wrong_type_rejected_on_write : forall e v, right_type (elem_sty e) v = false -> unconvert e v = Err Reject.
-Proof. intros e v. rewrite unconvert_elem. apply wrong_type_rejected_sty. Qed.
+Proof. exact T_wrong_type_rejected_on_write_l. Qed.
 Print Assumptions T_wrong_type_rejected_on_write.
